@@ -3,7 +3,7 @@ import os
 from vlib import Case, Stream, BUILD, model_cmd
 
 ID = "C10"
-LEAN_MODULES = ["HgVerif.Props.C10", "HgVerif.Model.Tie2", "HgVerif.Model.Extracted"]
+LEAN_MODULES = ["HgVerif.Props.C10", "HgVerif.Props.C10Ref", "HgVerif.Model.Tie2", "HgVerif.Model.Extracted"]
 USES_EXTRACT = True
 THEOREMS = ["HgVerif.Tie.tie_mapDrainDue", "HgVerif.Tie.tie_mapChildDue", "HgVerif.Tie.tie_mapChildFuture",
     
@@ -16,6 +16,14 @@ THEOREMS = ["HgVerif.Tie.tie_mapDrainDue", "HgVerif.Tie.tie_mapChildDue", "HgVer
     "HgVerif.MapNode.map_non_interference",
     "HgVerif.MapNode.map_fresh_after_readd",
     "HgVerif.MapNode.map_error_keyed",
+    "HgVerif.MapNodeRef.map_output_keys_track_validity",
+    "HgVerif.MapNodeRef.map_output_keys_track_validity_run",
+    "HgVerif.MapNodeRef.invalidation_is_keyed_removal",
+    "HgVerif.MapNodeRef.revalidation_is_keyed_add",
+    "HgVerif.MapNodeRef.valid_update_is_keyed_modify",
+    "HgVerif.MapNodeRef.ref_cycle_key_local",
+    "HgVerif.MapNodeRef.ref_cycle_frame",
+    "HgVerif.MapNodeRef.output_keys_track_validity_full_refuted",
 ]
 CXX_TARGETS = ["hgv_map"]
 RULE = ("key/element histories replayed into a REAL graph replay(TSD<int,TS<int>>) [+ second multiplexed TSD | broadcast TS] "
@@ -23,20 +31,35 @@ RULE = ("key/element histories replayed into a REAL graph replay(TSD<int,TS<int>
         "value-dependent delay that can move a pending wake-up earlier; tagged NodeScheduler event), emits-only-even (child output sometimes invalid), throws-on-negative with "
         "exception_time_series, broadcast add, two multiplexed dictionaries with differing key sets, nested map_(acc); with "
         "and without a key argument. A case is non-trivial when it has >= 3 keys live at once, a removal, and a re-add of a "
-        "removed key or an update of a live key; distinct by sha1 of the case body")
+        "removed key or an update of a live key; distinct by sha1 of the case body. Streams mapref*: the mapped function's "
+        "OUTPUT is a reference-routed terminal (the map element forwards to it): if_(v even, v).true, if_(flag[k], a[k]).true "
+        "over two multiplexed dictionaries, if_(z, a[k]).true with one broadcast TS<Bool>, switch_(v mod 3) - per-key "
+        "valid->invalid->valid sequences, several keys flipping in one cycle, flips together with key adds / removes / "
+        "re-adds, differing key sets; non-trivial there: >= 2 keys live at once, a valid->invalid and an invalid->valid "
+        "transition. mapref-silent holds the histories in which a child output loses its validity in a cycle in which its "
+        "element does not tick (condition-only tick, value key leaving): finding C10-B")
 TRUSTED = ["TSD/TSS slot stores, replay/record nodes, forwarding outputs and the union/keys_ nodes feeding __keys__ are taken "
            "as given (C04/C05/C13/C20)",
            "the child graph of one key is abstracted as an arbitrary Mealy machine with a cached next-scheduled time (C01-C03, "
-           "C09 are about what happens inside it)"]
+           "C09 are about what happens inside it)",
+           "reference-routed child outputs: what if_ / switch_ / the REF dereference inside the child do (C12/C13) is "
+           "abstracted as a list of element operations per evaluation (bind v | clear) plus the source ticks that reach "
+           "the element through its current route; the model driver composes MapNode.cycle (which children exist / run) "
+           "with MapNodeRef.refCycle (the owned output dictionary)"]
 ASSUMPTIONS = ["the key-set and element sources do not re-point (no switch_/REF upstream of map_ in the harness graph); the "
                "two entry banks and reconcile_compatible_key_source are not modelled",
                "children never pause (no mesh_ inside a mapped function): resume_position_plus_one stays 0",
                "the engine evaluates the map node at every time its slot in the parent schedule names (C02)",
-               "memory lifetime under slot reuse (ASan) is not expressible in the model: partial"]
+               "memory lifetime under slot reuse (ASan) is not expressible in the model: partial",
+               "reference-routed outputs (Props/C10Ref): times increase, an entry created in a cycle is not one removed in "
+               "the same cycle (FreshAdds), and - for the positive theorems only - Loud: an evaluation that only empties "
+               "the reference of a published key happens in a cycle in which that key's element ticked through the route "
+               "(without Loud the statement is refuted: finding C10-B)"]
 TECHNIQUE = ("Lean 4 proof: an inductive invariant over every reachable state of the map-node transition system (entries, lazy "
              "child-schedule heap, pulled_when coalescing, candidate set, parent re-arm) for arbitrary child behaviours, and a "
              "refinement of every slot to an independent per-key machine; differential correspondence against a real map_ graph "
-             "with an independent per-key reference monitor")
+             "with an independent per-key reference monitor; for reference-routed outputs a per-slot refinement of the owned "
+             "dictionary's delta bookkeeping (refCycle_slot) and slot invariants")
 LEVEL_TEXT = ("Kernel-checked for ARBITRARY child behaviours (Mealy machines with their own wake-up time, that may fail) and all "
               "histories of key-set changes, element ticks, out-of-band notifications and slot reuse: every started child with a "
               "pending wake-up owns a valid heap entry not later than it and the map node is armed not later than the heap "
@@ -46,14 +69,21 @@ LEVEL_TEXT = ("Kernel-checked for ARBITRARY child behaviours (Mealy machines wit
               "init at every (re-)add (map_per_key, map_fresh_after_readd), so two histories that agree on one key give the same "
               "stream for it whatever the other keys do (map_non_interference); a captured failure writes the error under the "
               "failing key only (map_error_keyed). The executable model (same definitions) is compared line by line with the "
-              "real runtime and each implementation trace is judged by a plain-Python per-key reference.")
+              "real runtime and each implementation trace is judged by a plain-Python per-key reference."
+              ' Reference-routed child outputs (Props/C10Ref.lean, streams mapref*; the owned output dictionary with finalize_mapped_child_output as coded): under the explicit hypothesis Loud the published keys are exactly the live keys whose child output is valid after every history, an invalidation is a keyed removal, a re-validation a keyed add, a valid update a keyed modification, and a key without own events is untouched; without Loud the statement is refuted (output_keys_track_validity_full_refuted = known finding C10-B).')
 LEVEL_NOTE = ("Partial: source re-pointing, pause/resume and the TSD output's own tick bookkeeping are outside the model (the "
               "latter is observed through the recorded deltas). What happens INSIDE a child graph after a captured failure is "
               "the child's behaviour: the stream 'map-failing-child-wakeup' runs a thrower ranked before a self-scheduling node in "
               "one child; its reference demands that a wake-up pending in the failing child survives the captured failure "
               "(it does not when the self-scheduling node is due in the failing cycle: known finding F6, reported as [C10-A]); "
               "C10_FINDINGS=lenient makes the reference drop it the way try_except around the same function does. "
-              "Memory safety under slot reuse is not covered.")
+              "Reference-routed child outputs (Props/C10Ref.lean, model MapNodeRef = TSDSlotStorage delta bookkeeping + "
+              "finalize_mapped_child_output): the published keys are exactly the live keys whose child output is valid, a "
+              "valid->invalid transition is a removal of that key only, invalid->valid an add - PROVIDED the element ticked "
+              "in the cycle of the invalidation (hypothesis Loud). Without it the full statement is refuted in the model "
+              "(output_keys_track_validity_full_refuted) and on the runtime: when only the routing condition ticks, "
+              "finalize_mapped_child_output returns early and the removal is never published (finding C10-B, stream "
+              "mapref-silent, candidate fix fixes/c10_ref_invalidate.patch). Memory safety under slot reuse is not covered.")
 
 UNARY = ["inc", "acc", "addkey", "echo1", "echo2", "echo3", "echov", "even", "neg"]
 # default (strict): the reference keeps a wake-up that is pending in a child across a captured failure of that
@@ -319,6 +349,204 @@ def gen_case(rng, idx, tier, fn=None):
     return Case(lines)
 
 
+
+# ------------------------------------------------------------------ generator: reference-routed child outputs
+
+REF_FNS = ("evenref", "flagref", "bflagref", "swref")
+
+
+def gen_ref_case(rng, idx, tier, fn=None, silent=False):
+    """A history for a mapped function whose OUTPUT is a reference-routed terminal.
+
+    silent=False: whenever a key's output loses its validity, the key's own element ticks in that cycle (through
+    the still non-empty route): the runtime publishes the removal.  silent=True: some invalidations happen with a
+    condition-only tick (or by the value key leaving while the flag stays): finding C10-B."""
+    fn = fn or rng.choice(["evenref", "evenref", "flagref", "flagref", "flagref", "bflagref", "bflagref", "swref"])
+    if silent and fn in ("evenref", "swref"):
+        fn = rng.choice(["flagref", "flagref", "bflagref"])
+    key = int(rng.random() < 0.7)
+    err = int(rng.random() < 0.08)
+    npool = rng.choice([2, 3, 3, 4, 6]) if fn != "bflagref" else rng.choice([2, 3, 3, 4])
+    pool = rng.sample(KEY_POOL, npool)
+    a, f, cond = {}, {}, {}
+    z = [None]
+    lines = ["case %d" % idx, "cfg %s %d %d" % (fn, key, err)]
+    ncyc = rng.randint(7, 14) if tier == "quick" else rng.randint(8, 24)
+    mode = rng.choice(["mixed", "mixed", "flipflop", "allflip", "churn"])
+
+    def live():
+        return set(a) | (set(f) if fn == "flagref" else set())
+
+    def routed(k):
+        if k not in a:
+            return False
+        if fn == "evenref":
+            return a[k] % 2 == 0
+        if fn == "flagref":
+            return cond.get(k) == 1
+        if fn == "bflagref":
+            return z[0] == 1
+        return False
+
+    def val_for(k, want_valid=None):
+        if fn == "evenref":
+            if want_valid is None:
+                want_valid = rng.random() < 0.5
+            v = 2 * rng.randint(-5, 40)
+            return v if want_valid else v + 1
+        if fn == "swref":
+            return rng.choice([rng.randint(0, 30), 3 * rng.randint(0, 9), 3 * rng.randint(0, 9) + 2, rng.randint(-9, 30)])
+        return rng.randint(0, 99)
+
+    for c in range(ncyc):
+        sa, da, sf, df = {}, set(), {}, set()
+        zop = None
+        lv = sorted(live())
+        rt0 = {k: routed(k) for k in lv}
+        # ---- key adds -------------------------------------------------------------------------------
+        free = [k for k in pool if k not in lv]
+        nadd = 0
+        if not lv or c == 0:
+            nadd = rng.choice([1, 2, 2, 3])
+        elif mode == "churn":
+            nadd = rng.choice([0, 1, 1, 2])
+        elif rng.random() < 0.25:
+            nadd = rng.choice([1, 1, 2])
+        for k in rng.sample(free, min(nadd, len(free))):
+            if fn == "flagref":
+                how = rng.random()
+                if how < 0.65:
+                    sa[k] = val_for(k)
+                    sf[k] = int(rng.random() < 0.6)
+                elif how < 0.85:
+                    sa[k] = val_for(k)
+                else:
+                    sf[k] = int(rng.random() < 0.6)
+            else:
+                sa[k] = val_for(k)
+        # ---- per-key actions on live keys ---------------------------------------------------------
+        if mode == "allflip" and rng.random() < 0.5:
+            touch = list(lv)
+        else:
+            touch = rng.sample(lv, min(len(lv), rng.choice([0, 1, 1, 2, 2, 3])))
+        for k in touch:
+            r = rng.random()
+            if fn in ("evenref", "swref"):
+                if r < (0.3 if mode == "churn" else 0.12):
+                    da.add(k)
+                elif fn == "evenref":
+                    flip = rng.random() < (0.85 if mode in ("flipflop", "allflip") else 0.5)
+                    sa[k] = val_for(k, (not rt0[k]) if flip else rt0[k])
+                else:
+                    sa[k] = val_for(k)
+            elif fn == "flagref":
+                if r < (0.25 if mode == "churn" else 0.1):           # the key leaves every dictionary
+                    if k in a:
+                        da.add(k)
+                    if k in f:
+                        df.add(k)
+                elif r < 0.55:                                        # flag flips, with or without a value tick
+                    cur = cond.get(k, 0) if k in f else rng.randint(0, 1) ^ 1
+                    sf[k] = 1 - cur if k in f else rng.randint(0, 1)
+                    if k in a and rng.random() < 0.6:
+                        sa[k] = val_for(k)
+                elif r < 0.8:
+                    sa[k] = val_for(k)                                # value tick (or the key enters `a`)
+                    if rng.random() < 0.2 and k in f:
+                        sf[k] = cond.get(k, 0)                       # the flag ticks with an unchanged value
+                elif r < 0.9:
+                    if k in f and k in a:
+                        df.add(k)                                     # the flag entry leaves, the value stays
+                    elif k in f:
+                        sa[k] = val_for(k)
+                    else:
+                        sf[k] = rng.randint(0, 1)
+                else:
+                    if k in a and k in f:
+                        da.add(k)                                     # the value leaves, the flag entry stays
+                    elif k in a:
+                        sf[k] = rng.randint(0, 1)
+                    else:
+                        sa[k] = val_for(k)
+            else:   # bflagref
+                if r < (0.3 if mode == "churn" else 0.12):
+                    da.add(k)
+                else:
+                    sa[k] = val_for(k)
+        if fn == "bflagref":
+            pz = 0.55 if mode in ("flipflop", "allflip") else 0.3
+            if z[0] is None:
+                if rng.random() < 0.6:
+                    zop = int(rng.random() < 0.7)
+            elif rng.random() < pz:
+                zop = 1 - z[0] if rng.random() < 0.85 else z[0]
+        # ---- loudness: every invalidation of a key that stays live comes with a tick of its own element -------
+        nsilent = 0
+        for k in lv:
+            if not rt0[k]:
+                continue
+            stays = (k in a and k not in da) or (fn == "flagref" and ((k in f and k not in df) or k in sf))
+            if not stays:
+                continue
+            if fn == "evenref":
+                continue           # the condition IS the element
+            if fn == "flagref":
+                lost = (k in da) or (sf.get(k, 1) == 0)
+            elif fn == "bflagref":
+                lost = zop == 0
+            else:
+                lost = False
+            if not lost or k in sa:
+                continue
+            if silent and rng.random() < 0.75:
+                nsilent += 1
+                continue
+            if k in da:
+                if fn == "flagref" and k in f and k not in sf:
+                    df.add(k)          # leave entirely instead
+                else:
+                    da.discard(k)
+                    sa[k] = val_for(k)
+            else:
+                sa[k] = val_for(k)
+        # ---- emit ------------------------------------------------------------------------------------
+        ops = []
+        for k, v in sa.items():
+            ops.append("set %d %d" % (k, v))
+        for k in da:
+            ops.append("del %d" % k)
+        for k, v in sf.items():
+            ops.append("bset %d %d" % (k, v))
+        for k in df:
+            if k not in sf:
+                ops.append("bdel %d" % k)
+        if zop is not None:
+            ops.append("z %d" % zop)
+        if rng.random() < 0.04:
+            ops = []
+        rng.shuffle(ops)
+        lines.append(" ".join(["c"] + ops))
+        if not ops:
+            continue
+        # ---- the generator's own book-keeping ---------------------------------------------------------------
+        for k in da:
+            a.pop(k, None)
+        a.update(sa)
+        for k in df:
+            if k not in sf:
+                f.pop(k, None)
+        f.update(sf)
+        if zop is not None:
+            z[0] = zop
+        for k, v in sf.items():
+            cond[k] = v
+        for k in list(cond):
+            if k not in live():
+                del cond[k]
+    lines.append("run")
+    return Case(lines)
+
+
 def exhaustive_small(tier):
     """every add/remove/update history of length <= L over 3 keys, one op per cycle (thorough)"""
     cases = []
@@ -354,13 +582,64 @@ def streams(rng, tier, seed):
     corpus = []
     if os.path.isdir(cdir):
         for f in sorted(os.listdir(cdir)):
+            if not os.path.isfile(os.path.join(cdir, f)):
+                continue        # corpus/C10/ref, corpus/C10/ref-silent belong to the mapref streams
             corpus.append(Case([l.rstrip("\n") for l in open(os.path.join(cdir, f)) if l.strip()]))
     out = [Stream("map", [os.path.join(BUILD, "hgv_map")], model_cmd("C10"), corpus + cases, timeout=3000)]
     if os.environ.get("C10_FINDINGS", "on") != "off":
         nf = 60 if tier == "quick" else 600
         out.append(Stream("map-failing-child-wakeup", [os.path.join(BUILD, "hgv_map")], model_cmd("C10"),
                           [gen_case(rng, 500000 + i, tier, "negecho") for i in range(nf)], timeout=3000))
+    # reference-routed child outputs: own random stream so the histories of the streams above do not move
+    import random
+    rr = random.Random(seed * 7919 + 70)
+    nr = 320 if tier == "quick" else 8000
+    rcorpus = []
+    rdir = os.path.join(os.path.dirname(BUILD), "corpus", "C10", "ref")
+    if os.path.isdir(rdir):
+        for f in sorted(os.listdir(rdir)):
+            rcorpus.append(Case([l.rstrip("\n") for l in open(os.path.join(rdir, f)) if l.strip()]))
+    out.append(Stream("mapref", [os.path.join(BUILD, "hgv_map")], model_cmd("C10"),
+                      rcorpus + [gen_ref_case(rr, 700000 + i, tier) for i in range(nr)] + exhaustive_ref(tier), timeout=3000))
+    # C10_FINDINGS=off drops both finding streams; C10_SILENT=off only the C10-B one (e.g. to check a tree that
+    # carries fixes/c10_ref_invalidate.patch, which the model - a copy of the unpatched code - does not follow)
+    if os.environ.get("C10_FINDINGS", "on") != "off" and os.environ.get("C10_SILENT", "on") != "off":
+        ns = 80 if tier == "quick" else 1500
+        scorpus = []
+        sdir = os.path.join(os.path.dirname(BUILD), "corpus", "C10", "ref-silent")
+        if os.path.isdir(sdir):
+            for f in sorted(os.listdir(sdir)):
+                scorpus.append(Case([l.rstrip("\n") for l in open(os.path.join(sdir, f)) if l.strip()]))
+        out.append(Stream("mapref-silent", [os.path.join(BUILD, "hgv_map")], model_cmd("C10"),
+                          scorpus + [gen_ref_case(rr, 800000 + i, tier, silent=True) for i in range(ns)], timeout=3000))
     return out
+
+
+def exhaustive_ref(tier):
+    """evenref: every history of length <= L over 2 keys with ops {set even, set odd, del} per cycle (one op per
+    cycle), quick: L <= 3, thorough: L <= 5"""
+    import itertools
+    cases = []
+    idx = 950000
+    top = 3 if tier == "quick" else 5
+    for L in range(1, top + 1):
+        for seq in itertools.product(range(6), repeat=L):
+            live, lines, ok = set(), [], True
+            for n, s_ in enumerate(seq):
+                k, what = s_ % 2 + 1, s_ // 2
+                if what == 2:
+                    if k not in live:
+                        ok = False
+                        break
+                    live.discard(k)
+                    lines.append("c del %d" % k)
+                else:
+                    live.add(k)
+                    lines.append("c set %d %d" % (k, 2 * (n + k) + (1 if what == 1 else 0)))
+            if ok:
+                idx += 1
+                cases.append(Case(["case %d" % idx, "cfg evenref 1 0"] + lines + ["c", "run"]))
+    return cases
 
 
 # ------------------------------------------------------------------ the reference (plain Python, one instance per live key)
@@ -377,6 +656,38 @@ class _Ref:
         self.e = None
         self.inner = {}
         self.k = int(fn[4:]) if fn.startswith("echo") and fn != "echov" else 2
+        # reference-routed outputs: the function run alone has a VALID output exactly while its reference is non-empty
+        self.cond = None          # the routing condition as the function last saw it
+        self.routed = False       # the reference is non-empty (and points at a present source)
+        self.rvalid = False
+        self.rval = None
+
+    def ref_cycle(self, i):
+        """One cycle of a reference-routed function run alone on this key.  Returns (tick, loud):
+        tick - the (valid) output ticks in this cycle; loud - a tick of the key's own element reached the output
+        through the reference as it was BEFORE this cycle (what makes the runtime look at the element again)."""
+        fn = self.fn
+        a, at = i["a"], i["aTick"]
+        was_valid, was_routed = self.rvalid, self.routed
+        if fn == "swref":
+            tick = False
+            if at and a is not None:
+                r = a % 3
+                if r != 2:
+                    self.rvalid, self.rval, tick = True, (a if r == 0 else a + 1000), True
+            return tick, False
+        if fn == "evenref":
+            if at and a is not None:
+                self.routed = a % 2 == 0
+        else:
+            cin = i["b"] if fn == "flagref" else i["z"]
+            if cin is not None:
+                self.cond = cin != 0
+            self.routed = bool(self.cond) and a is not None
+        self.rvalid = self.routed
+        self.rval = a if self.rvalid else None
+        tick = self.rvalid and (at or not was_valid)
+        return tick, bool(was_routed and at)
 
     def on_cycle(self, cyc, i):
         """i: dict(a, aTick, b, bTick, z, zTick, nsets, ndels).  Returns (out, err)."""
@@ -532,6 +843,8 @@ def _spec(case, out):
     errd = {}
     cyc = 0
     maxlive, saw_rem, saw_readd, saw_upd = 0, False, False, False
+    saw_inval = saw_reval = False
+    stale = set()      # reference-routed outputs that went invalid silently (finding C10-B): still published
     ever = set()
     dead = False
     out = list(out) + ["<missing>"] * (len(case.lines) - len(out))
@@ -590,7 +903,8 @@ def _spec(case, out):
         if set(sets_a) & set(dels_a) or set(sets_b) & set(dels_b):
             feats.add("ambiguous-delta(not judged)")
             break
-        two, nested, bcast = fn == "pair", fn == "nest", fn == "addb"
+        two, nested, bcast = fn in ("pair", "flagref"), fn == "nest", fn in ("addb", "bflagref")
+        isref = fn in REF_FNS
         if not two:
             sets_b, dels_b, btick = {}, [], False
         if not bcast:
@@ -637,7 +951,58 @@ def _spec(case, out):
         touched_b = set(sets_b) | (set(dels_b) & keys_b0)
         exp_run = set()
         failed_uncaptured = False
-        for k in sorted(refs):
+        # reference-routed outputs: strict expectation (exp_rem / exp_mod: what every key gives when run alone) and
+        # the expectation WITH finding C10-B (exp_rem_b): an output that loses its validity in a cycle in which the
+        # key's element does not tick is not reported removed; the removal surfaces when the key itself leaves
+        exp_rem_b = None
+        if isref:
+            exp_rem_b = [k for k in exp_rem] + [k for k in removed if k in stale]
+            for k in removed:
+                stale.discard(k)
+            member = ((keys_a1 ^ keys_a0) | (set(b) ^ keys_b0 if two else set())) & set(refs)
+            req_run = set(added) | (set(sets_b) & set(refs) if two else set()) | (set(refs) if ztick else set()) | member
+            if fn in ("evenref", "swref"):
+                req_run |= set(sets_a)
+            nflip = 0
+            for k in sorted(refs):
+                r = refs[k]
+                was = r.rvalid
+                inp = {"a": a.get(k), "aTick": k in sets_a, "b": b.get(k) if two else None, "bTick": k in sets_b,
+                       "z": z if bcast else None, "zTick": ztick}
+                tick, loud = r.ref_cycle(inp)
+                if k in sets_a and k not in added:
+                    saw_upd = True
+                if r.rvalid:
+                    if tick:
+                        exp_mod[k] = str(r.rval)
+                    outd[k] = str(r.rval)
+                    if not was:
+                        feats.add("ref:invalid->valid" + ("(condition-only tick)" if k not in sets_a else ""))
+                        saw_reval = True
+                        nflip += 1
+                    elif tick:
+                        feats.add("ref:valid->valid")
+                    stale.discard(k)
+                elif was:
+                    outd.pop(k, None)
+                    exp_rem.append(k)
+                    nflip += 1
+                    saw_inval = True
+                    if loud:
+                        exp_rem_b.append(k)
+                        feats.add("ref:valid->invalid")
+                    else:
+                        stale.add(k)
+                        feats.add("ref:valid->invalid SILENT (element does not tick)")
+                elif k in sets_a or k in sets_b or ztick:
+                    feats.add("ref:invalid->invalid")
+            if nflip > 1:
+                feats.add("ref:several-keys-flip-in-one-cycle")
+            if nflip and (added or removed):
+                feats.add("ref:flip+key-add/remove-same-cycle")
+            if stale:
+                feats.add("ref:stale-published-key")
+        for k in ([] if isref else sorted(refs)):
             r = refs[k]
             inp = {"a": a.get(k), "aTick": k in sets_a or (nested and (any(x[0] == k for x in nsets) or any(x[0] == k for x in ndels))),
                    "b": b.get(k) if two else None, "bTick": k in sets_b,
@@ -696,8 +1061,14 @@ def _spec(case, out):
         got = _parse_dict(f.get("rec"))
         grem, gmod = (sorted(got[0]), got[1]) if got else ([], {})
         if grem != sorted(exp_rem) or gmod != exp_mod:
+            if isref and gmod == exp_mod and grem == sorted(exp_rem_b):
+                # exactly the published-key book-keeping of finding C10-B (nothing else differs)
+                dtag = "[C10-B]"
+                feats.add("C10-B")
+            else:
+                dtag = tag or "[C10-delta]"
             bad.append("%s the recorded delta differs from what the keys give when run alone: cycle %d recorded %s, reference removed=%s modified=%s" %
-                       (tag or "[C10-delta]", cyc - 1, f.get("rec"), sorted(exp_rem), dict(sorted(exp_mod.items()))))
+                       (dtag, cyc - 1, f.get("rec"), sorted(exp_rem), dict(sorted(exp_mod.items()))))
         gval = _parse_dict(f.get("val"))
         if gval is not None:
             valid = {k: v for k, v in gval[1].items() if v != "_"}
@@ -723,13 +1094,23 @@ def _spec(case, out):
                 bad.append("[C10-isolation] a child was evaluated whose own first evaluation never happened (no key tag): "
                            "cycle %d run=%s" % (cyc - 1, runs))
             grun = {int(x) for x in toks if x.lstrip("-").isdigit()}
-            if grun != exp_run:
+            if isref:
+                # the element is a REFERENCE input of the routing child: its ticks pass through without an evaluation
+                allowed = req_run | (set(sets_a) & set(refs))
+                if not (req_run <= grun <= allowed):
+                    bad.append("[C10-isolation] the children evaluated are not keys with own input events: cycle %d evaluated %s, "
+                               "required %s, allowed %s" % (cyc - 1, sorted(grun), sorted(req_run), sorted(allowed)))
+            elif grun != exp_run:
                 extra, missing = sorted(grun - exp_run), sorted(exp_run - grun)
                 bad.append("%s the children evaluated are not the keys with own input ticks / due wake-ups: cycle %d evaluated %s, expected %s (extra %s, missing %s)" %
                            (tag or "[C10-isolation]", cyc - 1, sorted(grun), sorted(exp_run), extra, missing))
         else:
             n = 0 if runs == "-" else len(runs.split(","))
-            if n != len(exp_run):
+            if isref:
+                if not (len(req_run) <= n <= len(req_run | (set(sets_a) & set(refs)))):
+                    bad.append("[C10-isolation] the number of children evaluated does not fit the keys with own input events: "
+                               "cycle %d evaluated %d, required %d" % (cyc - 1, n, len(req_run)))
+            elif n != len(exp_run):
                 bad.append("%s the number of children evaluated is not the number of keys with own input ticks / due wake-ups: cycle %d evaluated %d, expected %d" % (tag or "[C10-isolation]", cyc - 1, n, len(exp_run)))
         if f.get("act") != str(len(refs)):
             bad.append("[C10-lifecycle] started children differ from live keys: cycle %d started %s, live %d" % (cyc - 1, f.get("act"), len(refs)))
@@ -741,7 +1122,10 @@ def _spec(case, out):
             gev = _parse_dict(f.get("eval"))
             if (gev[1] if gev else {}) != errd:
                 bad.append("[C10-error] the error dictionary differs from the per-key reference: cycle %d value %s, expected %s" % (cyc - 1, f.get("eval"), errd))
-    if maxlive >= 3 and saw_rem and (saw_readd or saw_upd):
+    if fn in REF_FNS:
+        if maxlive >= 2 and ((saw_inval and saw_reval) or (fn == "swref" and saw_upd and saw_rem)):
+            feats.add("nontrivial")
+    elif maxlive >= 3 and saw_rem and (saw_readd or saw_upd):
         feats.add("nontrivial")
     if saw_readd:
         feats.add("re-add-of-removed-key")
@@ -749,7 +1133,12 @@ def _spec(case, out):
 
 
 def monitor(stream, case, out):
-    return _spec(case, out)[0][:3]
+    bad = _spec(case, out)[0]
+    if any(m.startswith("[C10-B]") for m in bad):
+        # a message of finding C10-B must never hide an unexplained one of the same case
+        other = [m for m in bad if not m.startswith("[C10-B]")]
+        return (other or bad)[:3]
+    return bad[:3]
 
 
 def features(stream, case, out):
